@@ -219,7 +219,7 @@ Known bad: fewer than 4 bytes left when a cell length is read → framer.readInt
 Iter.Scan (KF-C05-11); a column list ending in 0-element tuples → `dest[0]` on an empty slice
 (KF-C05-12); a tuple cell whose field length exceeds the cell → marshal.go readBytes (KF-C05-13). -/
 section rows
-open FrameCrash RowsCrash
+open FrameCrash RowsCrash C05Rows
 
 def rowsKnownBad (proto flags : Nat) (body : Bytes) : Bool :=
   match iterate false proto flags body with
@@ -263,6 +263,28 @@ theorem C05_cex_rows_tuple_field :
 /-- non-vacuity: the same frame with both cells present iterates two rows -/
 example : iterate false 4 0 [0, 0, 0, 2, 0, 0, 0, 1, 0, 0, 0, 1, 0, 1, 107, 0, 1, 116, 0, 1, 99, 0, 9, 0, 0, 0, 2,
                              0, 0, 0, 1, 7, 255, 255, 255, 255] = some (.ok 2) := by decide +kernel
+
+/-! ### MapScan / SliceMap destinations (Iter.RowData → helpers.go goType)
+
+FULL PROPERTY (does NOT hold): `∀ proto flags body r, newRow false proto flags body = some r → r.isCrash = false`
+Known bad: a map type whose key is not comparable as a Go type — `reflect.MapOf` panics (KF-C05-14).
+The excluded shape is syntactic (`colOk`): no map, at the places goType looks, keyed by blob, list,
+set, map, tuple or UDT (all legal as FROZEN map keys in CQL), and no NativeType carrying a collection
+id (which readTypeInfo never builds). -/
+
+theorem C05_rowdata_total_partial (cols : List TI) (n : Nat) (h : ∀ c ∈ cols, colOk c = true) :
+    (rowData cols n).isCrash = false := C05Rows.rowData_safe cols n h
+
+/-- a legal schema: one column of type map<frozen<list<int>>, int> -/
+theorem C05_cex_rowdata_map_key_list :
+    newRow false 4 0 [0, 0, 0, 2, 0, 0, 0, 1, 0, 0, 0, 1, 0, 1, 107, 0, 1, 116, 0, 1, 99, 0, 33, 0, 32, 0, 9, 0, 9, 0, 0, 0, 0] = some .crashMapOf := by decide +kernel
+
+/-- map<blob, int> -/
+theorem C05_cex_rowdata_map_key_blob :
+    newRow false 4 0 [0, 0, 0, 2, 0, 0, 0, 1, 0, 0, 0, 1, 0, 1, 107, 0, 1, 116, 0, 1, 99, 0, 33, 0, 3, 0, 9, 0, 0, 0, 0] = some .crashMapOf := by decide +kernel
+
+/-- non-vacuity: map<int, list<int>> is fine -/
+example : newRow false 4 0 [0, 0, 0, 2, 0, 0, 0, 1, 0, 0, 0, 1, 0, 1, 107, 0, 1, 116, 0, 1, 99, 0, 33, 0, 9, 0, 32, 0, 9, 0, 0, 0, 0] = some (.ok 1) := by decide +kernel
 
 end rows
 
